@@ -131,6 +131,34 @@ class Analyzer:
                 i = strip_casts(d['init'])
                 if i.get('k') == 'mem' and i['f'] in ('content', 'length') and i['f'] not in stored_fields:
                     self.field_alias[d['d']] = (None, i['f'], i)
+            elif ndefs.get(d['d'], 0) == 1 and ('init' not in d or const_val(d['init']) == 0 or d['init'].get('null') or
+                                                 strip_casts(d['init']).get('null')):
+                # C89 style: declared with a dummy value, assigned once from the field before any use
+                asg = [a for a in fn.nodes() if a.get('k') == 'bin' and a['op'] == '=' and strip_casts(a['l']).get('k') == 'ref' and
+                       strip_casts(a['l'])['d'] == d['d']]
+                if len(asg) != 1:
+                    continue
+                i = strip_casts(asg[0]['r'])
+                if not (i.get('k') == 'mem' and i['f'] in ('content', 'length') and i['f'] not in stored_fields):
+                    continue
+                from .common import node_containing as _nc
+                try:
+                    an = _nc(self.cfg, asg[0])
+                except AnalysisBroken:
+                    continue
+                uses = [x for x in fn.nodes() if x.get('k') == 'ref' and x.get('d') == d['d'] and x is not strip_casts(asg[0]['l'])]
+                okd = True
+                for x in uses:
+                    try:
+                        un = _nc(self.cfg, x)
+                    except AnalysisBroken:
+                        okd = False
+                        break
+                    if un.id == an.id or not self.cfg.dominates(an.id, un.id):
+                        okd = False
+                        break
+                if okd:
+                    self.field_alias[d['d']] = (None, i['f'], i)
         # integer locals that hold a copy of B->offset (size_t offset = buffer->offset; ... buffer->offset = offset;): every
         # plain assignment to them is from that field; ++/--/+= c move the copy like they would move the field
         self.offset_copies = {}
@@ -149,6 +177,30 @@ class Analyzer:
                 bs = {self.buf_key(strip_casts(x)['b']) for x in ss}
                 if len(bs) == 1 and None not in bs:
                     self.offset_copies[d['d']] = (bs.pop(), d['n'])
+        # integer locals used as an absolute index into B->content (content[i], content + i): their distance to B->length is
+        # tracked like the distance of a pointer to the end of the input
+        self.abs_index = {}          # decl id -> buffer key
+        for x in fn.nodes():
+            cands = []
+            if x.get('k') == 'idx':
+                cands.append((x['b'], x['i']))
+            elif x.get('k') == 'bin' and x.get('op') == '+':
+                cands += [(x['l'], x['r']), (x['r'], x['l'])]
+            for (pb, pi) in cands:
+                b0 = strip_casts(pb)
+                bkey = None
+                if b0.get('k') == 'ref' and b0.get('d') in self.field_alias and self.field_alias[b0['d']][1] == 'content':
+                    bkey = '?alias'
+                elif b0.get('k') == 'mem' and b0.get('f') == 'content':
+                    bkey = '?field'
+                if bkey is None:
+                    continue
+                i0 = strip_casts(pi)
+                while i0.get('k') == 'bin' and i0['op'] in ('+', '-') and const_val(i0['r']) is not None:
+                    i0 = strip_casts(i0['l'])
+                if i0.get('k') == 'ref' and i0.get('dk') == 'local' and u.ty(i0.get('ty0', i0['ty']))['c'] == 'int' and \
+                        i0['d'] not in self.offset_copies:
+                    self.abs_index[i0['d']] = (b0, i0['n'])
         ths = set()
         for n in fn.nodes():
             v = const_val(n)
@@ -161,6 +213,12 @@ class Analyzer:
                 del self.field_alias[d]
             else:
                 self.field_alias[d] = (b, f)
+        for d, (b0, n_) in list(self.abs_index.items()):
+            b = self.buf_field(b0, 'content')
+            if b is None:
+                del self.abs_index[d]
+            else:
+                self.abs_index[d] = (b, n_)
 
     # ---- recognisers ---------------------------------------------------------------------------
     def is_pbuf_type(self, tid):
@@ -329,6 +387,18 @@ class Analyzer:
                 kind, key, idx = 'cur', vb, 0       # B->content[copy of B->offset]
                 pn = (kind, key, 0)
             else:
+                k_ = 0
+                i0 = ix
+                while i0 is not None and i0.get('k') == 'bin' and i0['op'] in ('+', '-') and const_val(i0['r']) is not None:
+                    k_ += const_val(i0['r']) if i0['op'] == '+' else -const_val(i0['r'])
+                    i0 = strip_casts(i0['l'])
+                if i0 is not None and i0.get('k') == 'ref' and i0.get('d') in self.abs_index and self.abs_index[i0['d']][0] == key and record:
+                    av = st.ptr.get(self.idx_key(i0['d']))
+                    need = c + k_ + 1
+                    ok = av is not None and av[0] >= need and c + k_ >= 0
+                    self.site('BND1', node, 'read %s needs %d readable byte(s) at index %s of %s.content' % (expr_str(node)[:50], need, i0['n'], key),
+                              ok, 'proved %s.length - %s >= %s' % (key, i0['n'], av[0] if av is not None and av[0] > NEG else 'nothing'),
+                              'read:%s.content[%s+%d]' % (key, i0['n'], c + k_))
                 return
         if kind == 'ptr' and key not in self.tracked_ptrs:
             return
@@ -347,8 +417,11 @@ class Analyzer:
             ok = False
             why = ''
             ix = strip_casts(idx)
+            bkey = key if kind == 'cur' else None
+            if kind == 'ptr' and key in st.rel and st.rel[key][0].startswith('@cur:') and st.rel[key][1] == st.rel[key][2] == 0:
+                bkey = st.rel[key][0][len('@cur:'):]        # the pointer still equals that buffer's cursor
             below = [a[1] for a in st.acc if isinstance(a[0], tuple) and a[0][0] == 'lt' and ix.get('k') == 'ref' and a[0][1] == ix['d']
-                     and (('cnt', key, 0), a[1]) in st.acc] if (kind == 'cur' and c == 0) else []
+                     and (('cnt', bkey, 0), a[1]) in st.acc] if (bkey is not None and c == 0) else []
             if ix.get('k') == 'ref' and ((kind, key, c), ix['d']) in st.acc:
                 ok = True
                 why = 'guarded: (%s) + %s < length established for this value of %s' % (term, ix['n'], ix['n'])
@@ -378,19 +451,52 @@ class Analyzer:
                   '%s:%s[%s]' % (how, name, expr_str(strip_casts(idx)) if not isinstance(idx, int) else idx))
 
     # ---- transfer -------------------------------------------------------------------------------------------
+    def idx_key(self, did):
+        b, n = self.abs_index[did]
+        return 'idx:%s:%s' % (b, n)
+
     def kill_var(self, st, did):
+        if did in self.abs_index:
+            st.ptr.pop(self.idx_key(did), None)
         st.int.pop(did, None)
         st.acc = frozenset(a for a in st.acc if a[1] != did and not (isinstance(a[0], tuple) and a[0][0] == 'lt' and a[0][1] == did))
 
     def kill_term(self, st, kind, key):
         st.acc = frozenset(a for a in st.acc if not ((a[0][0] == kind or (kind == 'cur' and a[0][0] == 'cnt')) and a[0][1] == key))
 
-    def assign_int(self, st, ref, iv):
+    def assign_int(self, st, ref, iv, rhs=None):
+        old_iv = st.int.get(ref['d'], TOP)
+        old_counts = [a[0][1] for a in st.acc if isinstance(a[0], tuple) and a[0][0] == 'cnt' and a[0][2] == 0 and a[1] == ref['d']]
         self.kill_var(st, ref['d'])
         if iv != TOP:
             st.int[ref['d']] = iv
         if iv == (0, 0):
             self.zero_count(st, ref['d'])
+        # a count of readable bytes replaced by something that is not larger is still a count of readable bytes
+        # (if (limit > 63) { limit = 63; })
+        if old_counts and iv[1] < POS and old_iv[0] > NEG and iv[1] <= old_iv[0] and iv[0] >= 0:
+            for B in old_counts:
+                st.acc = st.acc | {(('cnt', B, 0), ref['d'])}
+        if rhs is not None and ref['d'] in self.abs_index:
+            r = strip_casts(rhs)
+            c = 0
+            if r.get('k') == 'bin' and r['op'] in ('+', '-') and const_val(r['r']) is not None:
+                c, r = (const_val(r['r']) if r['op'] == '+' else -const_val(r['r'])), strip_casts(r['l'])
+            bo = self.buf_field(r, 'offset')
+            if bo and bo.split('#')[0] == self.abs_index[ref['d']][0] and bo in st.buf:
+                st.ptr[self.idx_key(ref['d'])] = _add(st.buf[bo], -c)      # as far from the end as the cursor, minus c
+        if rhs is not None:
+            r = strip_casts(rhs)
+            # v = B.length - B.offset [- c]: exactly (or less than) what is left of the input
+            c = 0
+            if r.get('k') == 'bin' and r['op'] == '-' and const_val(r['r']) is not None and const_val(r['r']) >= 0:
+                c, r = const_val(r['r']), strip_casts(r['l'])
+            if r.get('k') == 'bin' and r['op'] == '-':
+                bl, bo = self.buf_field(r['l'], 'length'), self.buf_field(r['r'], 'offset')
+                if bl and bo and bl == bo.split('#')[0]:
+                    av = st.buf.get(bo, TOP)
+                    if av[0] >= c:        # no wrap: offset + c <= length on this path
+                        st.acc = st.acc | {(('cnt', bo, 0), ref['d'])}
 
     def zero_count(self, st, did):
         # zero bytes are readable at every cursor that is not behind its end
@@ -467,6 +573,17 @@ class Analyzer:
         st.rel.pop(name, None)
         for k in [k for k, v in st.rel.items() if v[0] == name]:
             del st.rel[k]
+        if pn is None and r0.get('k') == 'bin' and r0['op'] == '+':
+            # p = B->content + i for an absolute index i: p is as far from the end as i is
+            for (x_, y_) in ((r0['l'], r0['r']), (r0['r'], r0['l'])):
+                bc = self.buf_field(x_, 'content')
+                i0 = strip_casts(y_)
+                if bc and i0.get('k') == 'ref' and i0.get('d') in self.abs_index and self.abs_index[i0['d']][0] == bc:
+                    av = st.ptr.get(self.idx_key(i0['d']))
+                    self.tracked_ptrs.add(name)
+                    if av is not None and av != TOP:
+                        st.ptr[name] = av
+                    return
         if pn is not None and pn[0] == 'ptr' and pn[1] != name:
             r = self.rel_of(pn, st)
             if r is not None and r[0] != name:
@@ -541,8 +658,8 @@ class Analyzer:
                 st.buf.pop(b, None)
                 st.off.pop(b, None)
             return
-        b = self.buf_field(lhs, 'length')
-        if b:
+        b = self.buf_field(lhs, 'length') if strip_casts(lhs).get('k') != 'ref' else None     # the one assignment that makes a local an
+        if b:                                                                                  # alias of the field is not a store to it
             if op == '=':
                 iv = self.ieval(a['r'], st)
                 st.len.pop(b, None)
@@ -559,7 +676,7 @@ class Analyzer:
                 st.len.pop(b, None)
                 st.buf.pop(b, None)
             return
-        b = self.buf_field(lhs, 'content')
+        b = self.buf_field(lhs, 'content') if strip_casts(lhs).get('k') != 'ref' else None
         if b:
             return
         l = strip_casts(lhs)
@@ -598,11 +715,28 @@ class Analyzer:
             elif t['c'] == 'int':
                 if op == '=':
                     iv = self.ieval(a['r'], st)
-                    self.assign_int(st, l, iv)
+                    self.assign_int(st, l, iv, a['r'])
+                    if l['d'] in self.offset_copies:
+                        # the copy takes over what is known about the buffer (offset = buffer->offset;)
+                        b_, n_ = self.offset_copies[l['d']]
+                        view = '%s#%s' % (b_, n_)
+                        src = self.buf_field(a['r'], 'offset')
+                        st.buf.pop(view, None)
+                        st.off.pop(view, None)
+                        if src and src in st.buf:
+                            st.buf[view] = st.buf[src]
+                        if src and src in st.off:
+                            st.off[view] = st.off[src]
                 else:
                     old = self.ieval(l, st)
                     r = self.ieval(a['r'], st)
+                    cst = const_val(a['r'])
+                    moved = None
+                    if l['d'] in self.abs_index and self.idx_key(l['d']) in st.ptr and cst is not None and op in ('+=', '-='):
+                        moved = _add(st.ptr[self.idx_key(l['d'])], -(cst if op == '+=' else -cst))
                     self.kill_var(st, l['d'])
+                    if moved is not None:
+                        st.ptr[self.idx_key(l['d'])] = moved
                     if op == '+=':
                         nv = (NEG if NEG in (old[0], r[0]) else _clamp(old[0] + r[0]), POS if POS in (old[1], r[1]) else _clamp(old[1] + r[1]))
                         if nv != TOP:
@@ -648,6 +782,7 @@ class Analyzer:
                     st.ptr[t['n']] = _add(st.ptr[t['n']], -ev.delta)
             elif ty['c'] == 'int':
                 old = st.int.get(t['d'])
+                moved = _add(st.ptr[self.idx_key(t['d'])], -ev.delta) if (t['d'] in self.abs_index and self.idx_key(t['d']) in st.ptr) else None
                 # offset + v < length and then v++: offset + v <= length, v bytes are readable at the cursor
                 counted = [a[0][1] for a in st.acc if isinstance(a[0], tuple) and a[0][0] == 'cur' and a[0][2] == 0 and a[1] == t['d']] \
                     if ev.delta == 1 else []
@@ -658,6 +793,8 @@ class Analyzer:
                     st.int[t['d']] = _add(old, ev.delta)
                 elif ty.get('unsigned') and ev.delta > 0:
                     st.int[t['d']] = (1, POS)
+                if moved is not None:
+                    st.ptr[self.idx_key(t['d'])] = moved
             return
         # depth counters etc.: nothing tracked
 
@@ -973,6 +1110,39 @@ class Analyzer:
 
     def refine_rel(self, L, op, Rr, st):
         a, b = self.side(L, st), self.side(Rr, st)
+        # absolute index against the length of its buffer: i + c < B.length etc.
+        for (x_, y_, flip) in ((L, Rr, False), (Rr, L, True)):
+            bl = self.buf_field(y_, 'length')
+            if not bl:
+                continue
+            k_ = 0
+            i0 = strip_casts(x_)
+            while i0.get('k') == 'bin' and i0['op'] in ('+', '-') and const_val(i0['r']) is not None:
+                k_ += const_val(i0['r']) if i0['op'] == '+' else -const_val(i0['r'])
+                i0 = strip_casts(i0['l'])
+            if i0.get('k') == 'ref' and i0.get('d') in self.abs_index and self.abs_index[i0['d']][0] == bl:
+                key_ = self.idx_key(i0['d'])
+                iv = st.ptr.get(key_, TOP)
+                # D = B.length - i ; the condition is  i + k op length  (or  length op i + k  when flipped)
+                if not flip:
+                    if op == '<':
+                        iv = self._meet(iv, lo=k_ + 1)
+                    elif op == '<=':
+                        iv = self._meet(iv, lo=k_)
+                    elif op == '==':
+                        iv = self._meet(iv, lo=k_, hi=k_)
+                else:
+                    if op == '<':        # length < i + k
+                        iv = self._meet(iv, hi=k_ - 1)
+                    elif op == '<=':     # length <= i + k
+                        iv = self._meet(iv, hi=k_)
+                    elif op == '==':
+                        iv = self._meet(iv, lo=k_, hi=k_)
+                if iv[0] > iv[1]:
+                    return None
+                if iv != TOP:
+                    st.ptr[key_] = iv
+                return st
         if a[0] == 'int' and b[0] == 'int' and op == '<' and a[1].get('d') != b[1].get('d'):
             st.acc = st.acc | {(('lt', a[1]['d']), b[1]['d'])}
         # a view B#v shares B's length
